@@ -237,12 +237,14 @@ deriving DecidableEq, Repr
 
 def attrKw (attrs : List (Str × Str)) : List (Str × PyVal) := attrs.map fun (k, v) => (k, PyVal.str v)
 
+/-- keywords `IndiMessagePart.from_xml` passes: the attributes, and `value` always -/
+def partKw (x : Elem1) : List (Str × PyVal) :=
+  aset (s "value") (if x.text.isEmpty then PyVal.none else PyVal.str (pyStrip x.text)) (attrKw x.attrs)
+
 def partFromXml (reg : Registry) (x : Elem1) : Except Err Part :=
   match findClass x.tag reg.parts with
   | none => .error .invalidTag
-  | some c =>
-    let v : PyVal := if x.text.isEmpty then .none else .str (pyStrip x.text)
-    constructPart c (aset (s "value") v (attrKw x.attrs))
+  | some c => constructPart c (partKw x)
 
 def partsFromXml (reg : Registry) : List Elem1 → Except Err (List Part)
   | [] => .ok []
@@ -254,17 +256,19 @@ def partsFromXml (reg : Registry) : List Elem1 → Except Err (List Part)
       | .error e => .error e
       | .ok ps => .ok (p :: ps)
 
+/-- keywords `IndiMessage.from_xml` passes: the attributes, `children` when there
+are child elements, `value` when there is text -/
+def msgKw (x : Elem) (ps : List Part) : List (Str × PyVal) :=
+  let kw1 := if ps.isEmpty then attrKw x.attrs else aset (s "children") (PyVal.parts ps) (attrKw x.attrs)
+  if x.text.isEmpty then kw1 else aset (s "value") (PyVal.str (pyStrip x.text)) kw1
+
 def fromXml (reg : Registry) (x : Elem) : Except Err Msg :=
   match findClass x.tag reg.messages with
   | none => .error .invalidTag
   | some c =>
     match partsFromXml reg x.children with
     | .error e => .error e
-    | .ok ps =>
-      let kw0 := attrKw x.attrs
-      let kw1 := if ps.isEmpty then kw0 else aset (s "children") (.parts ps) kw0
-      let kw2 := if x.text.isEmpty then kw1 else aset (s "value") (.str (pyStrip x.text)) kw1
-      construct c kw2
+    | .ok ps => construct c (msgKw x ps)
 
 /-! ### `to_xml` -/
 
